@@ -3,6 +3,203 @@
  * user-provided routines the scanner was told to expect (yyalloc family,
  * yywrap) and the adapter that executes top-level ops. */
 
+#if SIM_FLAVOR == SIM_CXX
+/* ------------------------------------------------------------------ */
+/* C++ lexer class (%option c++ yyclass="SimLexer")                     */
+#include <map>
+#include <mutex>
+
+/* one std::istream per simulated source.  Nothing is ever read through it: SimLexer::LexerInput
+ * asks the simulator, the stream buffer only identifies the source */
+struct SimSB : public std::streambuf {
+	FILE *f;
+	explicit SimSB(FILE *ff) : f(ff) {}
+};
+static std::mutex sim_streams_mu;
+static std::map<FILE *, std::istream *> sim_streams;
+static std::istream *sim_stream_of(FILE *f)
+{
+	std::lock_guard<std::mutex> g(sim_streams_mu);
+	std::map<FILE *, std::istream *>::iterator it = sim_streams.find(f);
+	if (it != sim_streams.end())
+		return it->second;
+	std::istream *is = new std::istream(new SimSB(f));
+	sim_streams[f] = is;
+	return is;
+}
+static FILE *sim_file_of(std::streambuf *sb)
+{
+	SimSB *s = dynamic_cast<SimSB *>(sb);
+	return s ? s->f : NULL;
+}
+
+void *yyalloc(yy_size_t n) { return sim_alloc(n); }
+void *yyrealloc(void *p, yy_size_t n) { return sim_realloc(p, n); }
+void yyfree(void *p) { sim_free(p); }
+
+FILE *SimLexer::in_file() { return sim_file_of(yyin.rdbuf()); }
+
+int SimLexer::LexerInput(char *buf, int max_size)
+{
+	return sim_read_user(in_file(), buf, (size_t) max_size);
+}
+
+void SimLexer::common_op(const sim_xop *x)
+{
+	switch (x->code) {
+	case SOP_CREATE_BUF:
+		sim_buf_created((void *) yy_create_buffer(sim_stream_of(x->f), (int) x->a), x->h, NULL, 0);
+		break;
+	case SOP_PUSHNEW: {
+		yy_buffer_state *b = yy_create_buffer(sim_stream_of(x->f), (int) x->a);
+		sim_buf_created((void *) b, x->h, NULL, 2);
+		yypush_buffer_state(b);
+		break;
+	}
+	case SOP_SWITCHNEW: {
+		yy_buffer_state *b = yy_create_buffer(sim_stream_of(x->f), (int) x->a);
+		sim_buf_created((void *) b, x->h, NULL, 1);
+		yy_switch_to_buffer(b);
+		break;
+	}
+	case SOP_SWITCH:
+		yy_switch_to_buffer((yy_buffer_state *) x->p);
+		break;
+	case SOP_PUSH_BUF:
+		yypush_buffer_state((yy_buffer_state *) x->p);
+		break;
+	case SOP_POP_BUF:
+		yypop_buffer_state();
+		break;
+	case SOP_FLUSH:
+		yy_flush_buffer((yy_buffer_state *) x->p);
+		break;
+	case SOP_DELETE:
+		yy_delete_buffer((yy_buffer_state *) x->p);
+		break;
+	case SOP_RESTART:
+		if (x->f)
+			yyrestart(sim_stream_of(x->f));
+		else
+			yyrestart(yyin);
+		break;
+	case SOP_SETBOL:
+		yysetbol((int) x->a);
+		break;
+	case SOP_SET_INTERACTIVE:
+		yy_set_interactive((int) x->a);
+		break;
+	case SOP_GET_LINENO:
+		sim_res_int("lineno", lineno());
+		break;
+	case SOP_SET_LINENO:
+		yylineno = (int) x->a;
+		break;
+	case SOP_NOP:
+		break;
+	default:
+		sim_res_int("unhandled-op", x->code);
+		break;
+	}
+}
+
+int SimLexer::yywrap()
+{
+	sim_xop x;
+	int ret = 1;
+	sim_sync_current((void *) yy_current_buffer(), in_file());
+	switch (sim_wrap_next(&x)) {
+	case SOP_STOP:
+		ret = 1;
+		break;
+	case SOP_SET_YYIN:
+		/* the analogue of "yyin = f; return 0;" */
+		yyin.rdbuf(sim_stream_of(x.f)->rdbuf());
+		ret = 0;
+		break;
+	default:
+		common_op(&x);
+		ret = 0;
+		break;
+	}
+	sim_wrap_done(ret, yystart());
+	return ret;
+}
+
+void SimLexer::exec_top(const sim_xop *x)
+{
+	switch (x->code) {
+	case SOP_LEX: {
+		long n;
+		if (x->f)
+			yyin.rdbuf(sim_stream_of(x->f)->rdbuf());
+		for (n = 0; n < x->a; n++) {
+			int r = yylex();
+			I->lexed = 1;
+			sim_sync_current((void *) yy_current_buffer(), in_file());
+			sim_log_lex(r, yystart(), yylineno);
+			if (r == 0)
+				break;
+		}
+		return;
+	}
+	case SOP_SET_YYIN:
+		yyin.rdbuf(sim_stream_of(x->f)->rdbuf());
+		break;
+	case SOP_BEGIN:
+		yybegin((int) x->a);
+		break;
+#if SIM_HAS_STACK
+	case SOP_PUSH_STATE:
+		yy_push_state((int) x->a);
+		break;
+	case SOP_POP_STATE:
+		yy_pop_state();
+		break;
+	case SOP_TOP_STATE:
+		sim_res_int("top", yy_top_state());
+		break;
+#endif
+	case SOP_GET_STATE:
+		break;
+	default:
+		common_op(x);
+		break;
+	}
+	sim_sync_current((void *) yy_current_buffer(), in_file());
+	sim_res_state(yystart(), yylineno, yy_current_buffer() ? yyatbol() : -1);
+}
+
+static void sim_exec_top(sim_inst *I, const sim_xop *x)
+{
+	if (x->code == SOP_INIT) {
+		I->extra_set = 0;
+		I->scanner = (void *) new SimLexer(I);
+		I->inited = 1;
+		sim_res_int("init", 0);
+		return;
+	}
+	if (x->code == SOP_DESTROY) {
+		delete (SimLexer *) I->scanner;
+		I->scanner = NULL;
+		sim_res_int("destroy", 0);
+		return;
+	}
+	((SimLexer *) I->scanner)->exec_top(x);
+}
+
+static const sim_scanner_vt sim_vt = {
+	SIM_NAME, 1, SIM_NCONDS, SIM_HAS_LINENO, SIM_HAS_STACK,
+	SIM_HAS_REJECT, SIM_HAS_YYMORE, SIM_BOL_NEEDED, 0,
+	SIM_DEFAULT_RULE, 0, sim_exec_top, 1
+};
+__attribute__((constructor)) static void sim_register_me(void)
+{
+	sim_register(&sim_vt);
+}
+
+#else  /* C flavours */
+
 #if SIM_FLAVOR == SIM_NR
 #define SIM_DECL_YYG
 #define SIM_DECL_SC(I)
@@ -297,3 +494,5 @@ __attribute__((constructor)) static void sim_register_me(void)
 {
 	sim_register(&sim_vt);
 }
+
+#endif /* C flavours */
